@@ -112,6 +112,10 @@ def eval_nest(case):
 
     before_all = state()
     befores = []
+    # what get_config_context / get_config_global hand out are the caller's own objects: a configuration fetched before
+    # the contexts are entered keeps its values, and editing a fetched configuration does not reconfigure the library
+    held = [c.get_config_context(validation_depth_default=None), c.get_config_context()]
+    held_before = [dataclasses.asdict(h) for h in held]
 
     def check_inside(i, outer):
         exp = _expected_inside(outer["context"], levels[i])
@@ -175,6 +179,15 @@ def eval_nest(case):
             ev.add("exception-swallowed", {"raise_at": raise_at})
     if state() != before_all:
         ev.add("final-state-differs", {"expected": before_all, "observed": state()})
+    held_after = [dataclasses.asdict(h) for h in held]
+    if held_after != held_before:
+        ev.add("fetched-config-object-changed-by-later-contexts", {"before": [str(x) for x in held_before], "after": [str(x) for x in held_after]})
+    scratch = c.get_config_context(validation_depth_default=None)
+    s0 = state()
+    scratch.validation_enabled = not scratch.validation_enabled
+    scratch.validation_depth = c.ValidationDepth.DATA_ONLY
+    if state() != s0:
+        ev.add("editing-a-fetched-config-reconfigures-the-library", {"before": s0, "after": state()})
     c.reset_config_context()
     return ev
 
